@@ -1223,6 +1223,8 @@ def static_cache(static_cache: RefMap[tp.Any, StaticCache]):
     yield
   finally:
     if GRAPH_CONTEXT.tmp_static_cache is not None:
+      # do not leave it behind for the next transform call of this thread
+      GRAPH_CONTEXT.tmp_static_cache = None
       raise ValueError(
         'GRAPH_CONTEXT.tmp_static_cache should be None, no context consumed it.'
       )
